@@ -12,6 +12,10 @@
 //!            `ParallelTemperingBondAutoCorrelations::calculate_bond_autocorrelation` on mock replicas
 //!            (half of the cases with offset columns)
 //!   real   : `calculate_variable_autocorrelation` on a real `QmcIsingGraph` against a single-stepped clone
+//!   genbond: `calculate_bond_autocorrelation` (and the tempering bond helper) on real generic `Qmc` samplers with
+//!            1..4-variable interactions registered as full matrices (with/without offset) or diagonal tables whose
+//!            diagonals differ only in late rows / only in early rows / nowhere: the observables must be exactly the
+//!            registered interactions with a non-constant diagonal (judged here from all 2^n entries)
 //!   edge   : excluded inputs run once (no sample, constant column, zero observables)
 //! Oracle: the documented formula (mean removed, unit norm, circular, averaged over observables) evaluated
 //! directly in f64 with an O(T^2) double loop on the samples of the documented cadence.
@@ -696,6 +700,206 @@ fn mode_real(a: &Args) {
     }
 }
 
+// ------------------------------------------------------------------------------------------------
+// bond autocorrelation of the real generic sampler: which interactions count as observables
+// ------------------------------------------------------------------------------------------------
+
+type Generic = DefaultQmc<SplitMix64>;
+
+/// what the harness registered: variables and ALL 2^n diagonal entries (as given, before any offset shift)
+#[derive(Clone)]
+struct Reg {
+    vars: Vec<usize>,
+    diag: Vec<f64>,
+}
+impl Reg {
+    /// the documented criterion: an interaction is an observable iff its diagonal is not constant
+    fn observable(&self) -> bool {
+        self.diag.iter().any(|d| *d != self.diag[0])
+    }
+    fn value(&self, state: &[bool]) -> f64 {
+        let idx = self.vars.iter().fold(0usize, |a, v| a * 2 + state[*v] as usize);
+        self.diag[idx]
+    }
+}
+
+/// diagonal of 2^n entries (multiples of 1/4 in [1/4, 4]): `late` = differs from the common value only in rows
+/// >= 2n, `early` = only in rows < 2n (needs n >= 1), `const`, `mixed`
+fn gen_diag(g: &mut SplitMix64, n: usize, pattern: &str) -> Vec<f64> {
+    let rows = 1usize << n;
+    let base = g.range(1, 8) as f64 / 4.0;
+    let other = |g: &mut SplitMix64| loop {
+        let x = g.range(1, 16) as f64 / 4.0;
+        if x != base {
+            return x;
+        }
+    };
+    let mut d = vec![base; rows];
+    let split = (2 * n).min(rows);
+    match pattern {
+        "late" if split < rows => {
+            let k = g.range(1, (rows - split) as i64) as usize;
+            for _ in 0..k {
+                let r = split + g.below((rows - split) as u64) as usize;
+                d[r] = other(g);
+            }
+        }
+        "early" | "late" => {
+            let k = g.range(1, 2) as usize;
+            for _ in 0..k {
+                let r = g.below(split as u64) as usize;
+                d[r] = other(g);
+            }
+        }
+        "mixed" => {
+            for r in 0..rows {
+                if g.coin() {
+                    d[r] = other(g);
+                }
+            }
+            d[rows - 1] = other(g);
+        }
+        _ => {}
+    }
+    d
+}
+
+/// Build a generic sampler from a list of registrations; returns it with what was registered, in bond order.
+fn build_generic(g: &mut SplitMix64, nvars: usize, seed: u64) -> (Generic, Vec<Reg>) {
+    let mut q = Generic::new_with_state(nvars, SplitMix64::new(seed), vec![false; nvars], false);
+    let mut regs = vec![];
+    // constant single-site terms: spin flips (never observables)
+    let tr = g.range(3, 8) as f64 / 4.0;
+    for v in 0..nvars {
+        q.make_interaction(vec![tr, tr, tr, tr], vec![v]).unwrap();
+        regs.push(Reg { vars: vec![v], diag: vec![tr, tr] });
+    }
+    let nterms = g.range(2, 6) as usize;
+    for ti in 0..nterms {
+        // arity: 1, 2 as neighbours of the 3- and 4-variable terms under test
+        let n = match ti % 4 {
+            0 => 3,
+            1 => *g.pick(&[1usize, 2]),
+            2 => {
+                if nvars >= 4 {
+                    4
+                } else {
+                    3
+                }
+            }
+            _ => g.range(1, 3.min(nvars as i64)) as usize,
+        };
+        let pattern = *g.pick(&["late", "late", "early", "const", "mixed"]);
+        let mut pool: Vec<usize> = (0..nvars).collect();
+        let vars: Vec<usize> = (0..n).map(|_| pool.remove(g.below(pool.len() as u64) as usize)).collect();
+        let diag = gen_diag(g, n, pattern);
+        let rows = 1usize << n;
+        // registration route: full matrix (with / without offset) or diagonal table (control)
+        let route = g.below(4);
+        match route {
+            0 | 1 => {
+                let mut m = vec![0.0; rows * rows];
+                for r in 0..rows {
+                    m[r * rows + r] = diag[r];
+                }
+                if route == 0 {
+                    q.make_interaction(m, vars.clone()).unwrap();
+                } else {
+                    q.make_interaction_and_offset(m, vars.clone()).unwrap();
+                }
+                stat(&format!("genbond_full_{}var_{}", n, pattern), 1);
+            }
+            2 => {
+                q.make_diagonal_interaction(diag.clone(), vars.clone()).unwrap();
+                stat(&format!("genbond_diag_{}var_{}", n, pattern), 1);
+            }
+            _ => {
+                q.make_diagonal_interaction_and_offset(diag.clone(), vars.clone()).unwrap();
+                stat(&format!("genbond_diag_{}var_{}", n, pattern), 1);
+            }
+        }
+        regs.push(Reg { vars, diag });
+    }
+    (q, regs)
+}
+
+fn obs_table(regs: &[Reg], states: &[Vec<bool>]) -> Vec<Vec<f64>> {
+    states.iter().map(|st| regs.iter().filter(|r| r.observable()).map(|r| r.value(st)).collect()).collect()
+}
+
+fn emit_genbond(tag: &str, n_bonds: usize, regs: &[Reg], r: &[f64], states: &[Vec<bool>]) {
+    let table = obs_table(regs, states);
+    let want_obs = regs.iter().filter(|r| r.observable()).count();
+    let input = format!("genbond {} 1 {}", states.len(), show_table(&table));
+    let mut oracle = judge(r, &table);
+    if n_bonds != want_obs {
+        oracle = Some(Err(format!(
+            "{}: n_bonds() = {} but {} registered interactions have a non-constant diagonal (diagonals: {})",
+            tag,
+            n_bonds,
+            want_obs,
+            regs.iter().map(|r| format!("{:?}", r.diag)).collect::<Vec<_>>().join(" ")
+        )));
+    } else if oracle.is_none() && want_obs > 0 && r.len() != states.len() {
+        oracle = Some(Err(format!("{}: {} entries for {} samples", tag, r.len(), states.len())));
+    }
+    let nt = matches!(oracle, Some(Ok(())));
+    // a constant sampled column leaves `judge` without verdict; the count of observables is still demanded
+    let oracle = oracle.or(Some(Ok(())));
+    emit(nt, &input, &format!("{} {}", n_bonds, show_out(r)), oracle);
+}
+
+fn mode_genbond(a: &Args) {
+    let mut g = SplitMix64::new(a.seed ^ 0x20b0);
+    let cases = if a.thorough { 200 } else { 40 };
+    for ci in 0..cases {
+        let nvars = g.range(3, 5) as usize;
+        let beta = *g.pick(&[0.25, 0.5, 1.0]);
+        let f = g.range(1, 3) as usize;
+        let l = *g.pick(&LENS_QUICK[6..17]);
+        let t = l * f + g.below(f as u64) as usize;
+        if ci % 4 != 3 {
+            let seed = g.next();
+            let (mut q, regs) = build_generic(&mut g, nvars, seed);
+            q.timesteps(10, beta);
+            let mut q2 = q.clone();
+            let nb = q.n_bonds();
+            match catch(|| q.calculate_bond_autocorrelation(t, beta, Some(f))) {
+                Err(p) => emit(false, &format!("genbond {} 1 -", l), "panic", Some(Err(format!("generic bond helper panicked: {}", p)))),
+                Ok(r) => {
+                    let (states, _) = q2.timesteps_sample(t, beta, Some(f));
+                    emit_genbond("generic sampler", nb, &regs, &r, &states);
+                }
+            }
+        } else {
+            // the tempering bond helper over generic replicas (identical interactions, beta ladder)
+            let nrep = g.range(2, 3) as usize;
+            let gs = g.clone();
+            let mut tc: TemperingContainer<SplitMix64, Generic> = TemperingContainer::new(SplitMix64::new(g.next()));
+            let mut regs = vec![];
+            for i in 0..nrep {
+                let mut gi = gs.clone();
+                let (q, rg) = build_generic(&mut gi, nvars, g.next());
+                regs = rg;
+                tc.add_qmc_stepper(q, [0.25, 0.5, 1.0][i % 3]).unwrap();
+            }
+            tc.timesteps(5);
+            let mut tc2 = tc.clone();
+            let s = g.range(1, 5) as usize;
+            let nbs: Vec<usize> = tc.graph_ref().iter().map(|(q, _)| q.n_bonds()).collect();
+            match catch(|| tc.calculate_bond_autocorrelation(t, Some(s), Some(f))) {
+                Err(p) => emit(false, &format!("genbond {} 1 -", l), "panic", Some(Err(format!("tempering bond helper panicked: {}", p)))),
+                Ok(r) => {
+                    let ref_run = tc2.parallel_timesteps_sample(t, s, f);
+                    for i in 0..nrep {
+                        emit_genbond("generic replicas", nbs[i], &regs, &r[i], &ref_run[i].0);
+                    }
+                }
+            }
+        }
+    }
+}
+
 fn mode_edge(_a: &Args) {
     // no sample at all (f > T): fft_autocorrelation indexes samples[0]
     run_custom(3, Some(5), &[vec![1.0], vec![2.0], vec![0.5]]);
@@ -721,6 +925,9 @@ fn main() {
     }
     if all || a.mode == "real" {
         mode_real(&a);
+    }
+    if all || a.mode == "genbond" {
+        mode_genbond(&a);
     }
     if all || a.mode == "edge" {
         mode_edge(&a);
